@@ -52,7 +52,7 @@ SIMPLE = {
     'begin': Q('BEGIN'), 'select': Q('SELECT 1'), 'commit': Q('COMMIT'), 'rollback': Q('ROLLBACK'), 'error': Q('SELECT 1/0'),
     'set': Q('SET statement_timeout TO 5'), 'setrole': Q('SET ROLE r'), 'prepare': Q('PREPARE p AS SELECT 1'),
     'setlocal': Q('SET LOCAL x TO 1'), 'copyin': Q('COPY t FROM STDIN'), 'copyout': Q('COPY t TO STDOUT'), 'empty': Q(';'),
-    'select2': Q('SELECT 2'), 'qt1': Q('SELECT * FROM t1'), 'qt2': Q('SELECT * FROM t2'), 'd': msg('d', b'1\n'), 'c': msg('c'), 'f': msg('f', b'stop\0'), 'multi': Q('BEGIN; SELECT 1'), 'sync': S, 'flush': H,
+    'select2': Q('SELECT 2'), 'sleep': Q('SELECT pg_sleep(1)'), 'qt1': Q('SELECT * FROM t1'), 'qt2': Q('SELECT * FROM t2'), 'd': msg('d', b'1\n'), 'c': msg('c'), 'f': msg('f', b'stop\0'), 'multi': Q('BEGIN; SELECT 1'), 'sync': S, 'flush': H,
 }
 
 
@@ -127,7 +127,7 @@ def tmpl(name):
 
 # ----------------------------------------------------------------------------------------------- one case
 class Case:
-    def __init__(self, names, stop='eof', cut=None, mode='transaction', cache=0, roles=(0,), paused=None, sym_status=False, plugins=False, shards=None, custom=False, params=None, second=None, second_params=None):
+    def __init__(self, names, stop='eof', cut=None, mode='transaction', cache=0, roles=(0,), paused=None, sym_status=False, plugins=False, shards=None, custom=False, params=None, second=None, second_params=None, idle_timeout=False, stmt_timeout=False):
         self.names = list(names)
         self.stop = stop              # 'eof' | 'X'
         self.cut = cut                # None or number of bytes of the LAST message delivered before EOF
@@ -137,6 +137,8 @@ class Case:
         self.paused = paused          # None | 'start' | ('after', k): PAUSE arrives while the client is idle before message k
         self.sym_status = sym_status
         self.shards = shards          # None or list of role tuples, one per shard (overrides `roles`)
+        self.stmt_timeout = stmt_timeout   # statement_timeout configured: a pg_sleep statement may or may not be answered in time
+        self.idle_timeout = idle_timeout   # idle_client_in_transaction_timeout configured: it may fire at any read inside a transaction
         self.second = second          # None or the script (names) of a second client that connects after the first one has gone
         self.second_params = second_params
         self.params = params          # None or dict: the client's startup values of tracked parameters (the servers start with the defaults)
@@ -150,6 +152,8 @@ class Case:
         s += '' if len(self.roles) == 1 else '/%dbackends' % len(self.roles)
         s += '/symstatus' if self.sym_status else ''
         s += '' if self.paused is None else '/paused:%s' % (self.paused,)
+        s += '/idle-timeout' if self.idle_timeout else ''
+        s += '/statement-timeout' if self.stmt_timeout else ''
         s += '' if not self.second else '/then:%s%s' % ('+'.join(self.second), '' if not self.second_params else sorted(self.second_params.items()))
         s += '' if not self.params else '/params:%s' % (sorted(self.params.items()),)
         s += '' if not self.shards else '/shards:%s' % (self.shards,)
@@ -219,7 +223,8 @@ def run_case(chk, ob, ip, prog, case, props, extra_judge=None):
             settings_over['query_parser_enabled'] = BV(1, 1)
         env = HE.HandleEnv(ip_, prog, bks, sent, client_over=client_over, pool_over=pool_over, paused=(case.paused in ('start', 'start-resume')),
                            pending_at=pend, on_pending=on_pending, settings_over=settings_over,
-                           boundaries=[sum(len(mm) for mm in msgs[:k]) for k in range(len(msgs) + 1)])
+                           boundaries=[sum(len(mm) for mm in msgs[:k]) for k in range(len(msgs) + 1)],
+                           idle_timeout_ms=(400 if case.idle_timeout else 0), statement_timeout_ms=(500 if case.stmt_timeout else 0))
         if case.cache:
             def give_cache(b):
                 setf(prog, b.server, 'Server', 'prepared_statement_cache', some(ip_, lru([], case.cache)))
@@ -298,6 +303,22 @@ def run_case(chk, ob, ip, prog, case, props, extra_judge=None):
                 cmd['eof'] = False
             if case.params is not None:
                 cmd['startup_params'] = dict(case.params)
+            if case.stmt_timeout:
+                # natively the reference backend sleeps 1.5 s on pg_sleep statements; statement_timeout 500 ms fires, or (witness
+                # without a timeout) the statement timeout is configured far above the sleep
+                cmd['statement_timeout_ms'] = 500 if any(e[0] == 'statement_timeout' for e in env.events) else 6000
+            if case.idle_timeout:
+                # the client goes silent (longer than the configured timeout) exactly where the solver let the deadline fire
+                cmd['idle_timeout_ms'] = 400
+                fired = [e[1] for e in env.events if e[0] == 'idle_timeout']
+                steps, last = [], 0
+                for pos in fired:
+                    if pos > last:
+                        steps.append({'send_hex': hexs[2 * last:2 * pos]})
+                    steps.append({'sleep_ms': 900})
+                    last = pos
+                steps.append({'send_hex': hexs[2 * last:]})
+                cmd['steps'] = steps
             if case.shards:
                 cmd['shards'] = [['primary' if r == 0 else 'replica' for r in rs] for rs in case.shards]
                 cmd.pop('roles', None)
